@@ -139,7 +139,10 @@ def renderFKind : DefSpec.FKind → String
 
 def renderExpClass (d : MsgDef) (v : Nat) (c : DefSpec.ExpClass) : String :=
   let fs := c.fields.map (fun f => s!"{strOfChars f.name}:{renderFKind f.kind}:{f.nullable}:" ++
-    (match f.tag with | some t => toString t | none => "-"))
+    (match f.tag with | some t => toString t | none => "-") ++ ":" ++
+    (match f.dflt with
+     | .noDefault => "MISSING" | .value v => v.render.replace " " "," | .emptyArray => "A0"
+     | .structOfDefaults => "STRUCT" | .unsupported => "UNSUPPORTED"))
   let hv := headerVersionOf d v
   s!"{strOfChars c.name}|{c.top}|{DefSpec.flexibleAt d v}|" ++
     (match d.apiKey with | some k => toString k | none => "-") ++ "|" ++
